@@ -11,6 +11,7 @@ import (
 	"pgregory.net/rapid"
 
 	"verif/clientsim"
+	"verif/discsim"
 	"verif/evid"
 	"verif/memnet"
 	"verif/pairsim"
@@ -198,8 +199,8 @@ func TestCheck(t *testing.T) {
 		return f
 	})
 	r.Main(evid.Meta{
-		Rule:        fmt.Sprint("the mixed scenarios of C04/C13 (plain and block-wise requests in both directions, one-way writes, observe + notifications + cancel, ping; endings by answer, silence, slow handler, caller cancellation, separate response; some requests re-use the token of an earlier one that was abandoned, has finished or is still outstanding; fault tapes with drop/duplicate/re-order/replay on the datagram link, segmentation on the stream; partly concurrent) run between two library endpoints whose pools hold only 2-8 objects and are instrumented through the verif life-cycle hook: per-object state machine (a second release without re-acquisition is a violation), poison of every retained buffer on release, poison verified on the next acquisition and in an end-of-run sweep (a library write after release), fingerprint for objects the full pool did not keep; application side: every response returned from a call is snapshotted and held across the following operation(s), every request is snapshotted at handler entry and compared at exit after the handler slept while other traffic churned the pool, every notification likewise at entry and exit of the observe callback (which holds it for 0-30 ms). scripted: the same monitor on one client connection against the scripted wire-level peer (endings: answer, silence, bare ACK, reset, duplicated and stray replies, undecodable block option, first block then silence, block-wise download; cancellation; token re-use), which reaches the error paths that release early. Non-trivial = at least one object was recycled during a scenario with >= 2 operations; distinct by scenario"),
+		Rule:        fmt.Sprint(discsim.RuleDupBlocks + ". Others: the mixed scenarios of C04/C13 (plain and block-wise requests in both directions, one-way writes, observe + notifications + cancel, ping; endings by answer, silence, slow handler, caller cancellation, separate response; some requests re-use the token of an earlier one that was abandoned, has finished or is still outstanding; fault tapes with drop/duplicate/re-order/replay on the datagram link, segmentation on the stream; partly concurrent) run between two library endpoints whose pools hold only 2-8 objects and are instrumented through the verif life-cycle hook: per-object state machine (a second release without re-acquisition is a violation), poison of every retained buffer on release, poison verified on the next acquisition and in an end-of-run sweep (a library write after release), fingerprint for objects the full pool did not keep; application side: every response returned from a call is snapshotted and held across the following operation(s), every request is snapshotted at handler entry and compared at exit after the handler slept while other traffic churned the pool, every notification likewise at entry and exit of the observe callback (which holds it for 0-30 ms). scripted: the same monitor on one client connection against the scripted wire-level peer (endings: answer, silence, bare ACK, reset, duplicated and stray replies, undecodable block option, first block then silence, block-wise download; cancellation; token re-use), which reaches the error paths that release early. Non-trivial = at least one object was recycled during a scenario with >= 2 operations; distinct by scenario"),
 		Assumptions: []string{"library reads after release are only visible if they lead to a write, a crash or changed application-visible content", "goroutine interleavings are the runtime's"},
 		Floor:       300,
-	}, eng, scripted)
+	}, eng, scripted, discsim.Engine(r, "dupblocks", 6, 120))
 }
